@@ -122,6 +122,13 @@ var hideMechanisms = []string{
 	` style="visibility:hidden"`,
 	` style="visibility: collapse"`,
 	` aria-hidden="true"`,
+	// the same declarations as CSS allows them to be written
+	` style="DISPLAY:NONE"`,
+	` style="display:none !important"`,
+	` style="display : none"`,
+	` style="Display: None;"`,
+	` style="VISIBILITY: HIDDEN"`,
+	` style="visibility:hidden !important"`,
 }
 
 func (g *docGen) hideAttr() string {
@@ -203,7 +210,11 @@ func (g *docGen) render(n *cnode) string {
 		return g.wrap(g.pick("span", "b", "em"), g.hideAttr(), g.kidsHTML(n))
 	case "SKS":
 		w := g.rawWords(n)
-		switch g.pick("script", "style", "noscript", "svg", "iframe", "scripttyped") {
+		switch g.pick("script", "style", "noscript", "svg", "iframe", "scripttyped", "scriptblock", "styleblock") {
+		case "scriptblock":
+			return `<script style="display:block">var ` + strings.ReplaceAll(w, " ", "; var ") + ";</script>"
+		case "styleblock":
+			return `<style style="display: block">.` + strings.ReplaceAll(w, " ", " .") + " {color:red}</style>"
 		case "script":
 			return "<script>var " + strings.ReplaceAll(w, " ", "; var ") + ";</script>"
 		case "scripttyped":
@@ -309,7 +320,9 @@ func (g *docGen) render(n *cnode) string {
 		g.lnk++
 		img := fmt.Sprintf(`<img src="/i/m%d.png"%s>`, m, g.noiseAttrs())
 		cap := g.kidsHTML(n) + fmt.Sprintf(` <a href="/lnk/u%d.html"%s>%s</a>`, g.lnk, g.noiseAttrs(), g.words(g.short))
-		return g.wrap("figure", "", img+g.wrap("figcaption", "", cap))
+		// the caption itself may be hidden
+		capAttr := g.pick("", "", "", "", " hidden", ` style="display:none"`, ` aria-hidden="true"`)
+		return g.wrap("figure", "", img+g.wrap("figcaption", capAttr, cap))
 	case "DT":
 		// a data table: header row + body rows of two cells; children fill the cells
 		var sb strings.Builder
